@@ -9,10 +9,9 @@ Definition gcat (e : gem_elem) : Z :=
 
 Definition gem_is_num (e : gem_elem) : bool := version_category (ge_str e) =? cat_numeric.
 
-(* The comparator ends with: if len(bs) > len(as) return -1, else 0.  It is reached with
-   lists of different lengths exactly when the extra elements are all numerals of value 0
-   (spelled 00, 000: a plain 0 is trimmed by the parser), and then it is not symmetric
-   (F-C01-3).  The laws are proved for element lists that do not end in a numeral of value 0. *)
+(* Lists that do not end in a numeral of value 0 (spelled 00, 000: a plain 0 is trimmed by the
+   parser).  Before c398aba the comparator ended with a one-sided length test that made such
+   lists non-antisymmetric (F-C01-3, fixed); the predicate is kept for the harness statistics. *)
 Fixpoint gem_last_ok (l : list gem_elem) : bool :=
   match l with
   | [] => true
@@ -30,10 +29,8 @@ Definition gem_release_only (v : version) : bool :=
 Definition gem_elems (v : version) : list gem_elem := match v_ext v with GemExt l => l | _ => [] end.
 
 (* C02: what a parsed version looks like (hypothesis of the agreement theorem): numbers not
-   negative; elements numerals (value not negative) or words, the first one a word, the last
-   one not a numeral of value 0 *)
+   negative; elements numerals (value not negative) or words, the first one a word *)
 Definition c02_wf_b (v : version) : bool :=
   forallb (fun z => 0 <=? z) (v_num v)
   && forallb (fun e => ((gcat e =? cat_numeric) && (0 <=? ge_int e)) || (gcat e =? cat_qualifier)) (gem_elems v)
-  && match gem_elems v with [] => true | e :: _ => gcat e =? cat_qualifier end
-  && gem_last_ok (gem_elems v).
+  && match gem_elems v with [] => true | e :: _ => gcat e =? cat_qualifier end.
